@@ -188,16 +188,17 @@ class SpecGen:
     def numpy(self, dt, n):
         r = self.r
         isz = DTYPES[dt][2]
-        stride_items = r.choice([1, 1, 1, 1, 2, 3])
+        stride_items = r.choice([1, 1, 1, 1, 1, 2, 3, -1, -2])      # negative: a reversed view, x[::-1]
         pad = r.choice([0, 0, 0, 1, 2])
-        total = pad + max(0, (n - 1) * stride_items + 1 if n > 0 else 0) + r.choice([0, 0, 1])
+        total = pad + max(0, (n - 1) * abs(stride_items) + 1 if n > 0 else 0) + r.choice([0, 0, 1])
         items = [rand_scalar(r, dt) for _ in range(total)]
         if self.special_rate and dt in ("float32", "float64"):
             items = [r.choice([float("nan"), float("nan"), float("inf"), float("-inf"), -0.0])
                      if r.random() < self.special_rate else x for x in items]
         unit = "s" if dt in ("datetime64", "timedelta64") else ""
+        first = pad if stride_items > 0 or n == 0 else pad + (n - 1) * abs(stride_items)
         return {"k": "numpy", "dtype": dt, "buf": pack_items(dt, items).hex(), "shape": [n], "strides": [stride_items * isz],
-                "byteoffset": pad * isz, "unit": unit}
+                "byteoffset": first * isz, "unit": unit}
 
     def numpy2d(self, dt, n, size):
         r = self.r
@@ -247,8 +248,18 @@ class SpecGen:
             data = bytes(r.choice(b"abcxyz 0123") for _ in range(total))
         else:
             data = bytes(r.randrange(256) for _ in range(total))
-        return {"k": "numpy", "dtype": "uint8", "buf": data.hex(), "shape": [total], "strides": [1], "byteoffset": 0,
+        spec = {"k": "numpy", "dtype": "uint8", "buf": data.hex(), "shape": [total], "strides": [1], "byteoffset": 0,
                 "unit": "", "param": "char" if param == "string" else "byte"}
+        if total > 0 and r.random() < 0.12:
+            # the characters are a strided or reversed view of a larger buffer (np.frombuffer(...)[::2], [::-1])
+            st = r.choice([2, 3, -1, -2])
+            filler = bytes(r.choice(b"#%") for _ in range((total - 1) * abs(st) + 1))
+            buf = bytearray(filler)
+            first = 0 if st > 0 else (total - 1) * abs(st)
+            for i, ch in enumerate(data):
+                buf[first + i * st] = ch
+            spec.update({"buf": bytes(buf).hex(), "strides": [st], "byteoffset": first})
+        return spec
 
     def option(self, inner, n):
         r = self.r
